@@ -639,12 +639,12 @@ func (e *Env) evalCall(x *ECall) Val {
 			return spec(reg.StrLen(v.T))
 		}
 		if v.isDom || (v.Ty == nil && strings.HasPrefix(string(v.T.Sort), "(Array ")) {
-			return spec(App(SInt, reg.CardFun(v.T.Sort), v.T))
+			return spec(reg.Card(v.T))
 		}
 		if v.Ty != nil {
 			if _, ok := v.Ty.Underlying().(*types.Map); ok {
 				dom := u.mapDom(e.cur, v.Ty, v.T)
-				return spec(Ite(Eq(v.T, IntN(0)), IntN(0), App(SInt, reg.CardFun(dom.Sort), dom)))
+				return spec(Ite(Eq(v.T, IntN(0)), IntN(0), reg.Card(dom)))
 			}
 		}
 		e.fail("len of %s", x.Args[0].exprString())
